@@ -260,7 +260,7 @@ def gen(rng, tier):
             s = s[:j] + rng.choice([b"", b"\r", b"\n", b" ", b":", bytes([rng.randrange(256)])]) + s[j + 1:]
         add(s, "damaged", len(s) <= limit and rng.random() < (0.3 if q else 1.0))
     # header section at the size limits (totalHeadersSize 16384, maxHeaders 500, MAX_LENGTH 16384)
-    for nb in ((16300, 16384) if q else (16200, 16383, 16384, 16385, 16400)):
+    for nb in ((16384,) if q else (16200, 16383, 16384, 16385, 16400)):
         line = b"GET /" + b"a" * 20 + b" HTTP/1.1\r\n"
         pad = nb - (len(line) - 2) - len(b"X: ")
         s = line + b"X: " + b"v" * pad + b"\r\n\r\n" + c19.SENTINEL
